@@ -83,11 +83,10 @@ Theorem C05_mutation_sites_covered :
 Proof. vm_compute. reflexivity. Qed.
 Print Assumptions C05_mutation_sites_covered.
 
-(* every reviewed function (in particular every function that holds an astcopy call) is still there *)
-Theorem C05_reviewed_functions_present :
-  forallb (fn_present mutation_sites) reviewed_mut_fns = true.
-Proof. vm_compute. reflexivity. Qed.
-Print Assumptions C05_reviewed_functions_present.
+(* Direction: only NEW or MORE write sites, and a vanished copy in a function that still has sites, need review
+   (Model_Inventory.fn_sites_within). A reviewed function that no longer exists cannot write; such entries are listed for
+   information (a RENAMED function shows up as unreviewed in the obligation above): *)
+Eval vm_compute in (map rf_fn (filter (fun r => negb (fn_present mutation_sites r)) reviewed_mut_fns)).
 
 (* each rewriting checker still has its copy call: a write site in a checker file without any astcopy in that file
    is only acceptable for the two fresh-node builders *)
